@@ -64,6 +64,7 @@ Apply(i) ==
     [] i.op = "cancel"  -> CCommit(CancelCtxFx(CCur, i.g, IF i.mode = "" THEN "killnowait" ELSE i.mode))
     [] i.op = "inv"     -> CCommit(InvocationRpFx(CCur, i.reg, i.inv, i.tmo, i.prog))
     [] i.op = "sendprog" -> CCommit(SendProgFx(CCur, i.inv))
+    [] i.op = "deaf"    -> CCommit(DeafFx(CCur))
     [] i.op = "intr"    -> CCommit(InterruptFx(CCur, i.inv))
     [] i.op = "release" -> CCommit(ReleaseFx(CCur, i.inv, i.how))
     [] i.op = "event"   -> CCommit(EventFx(CCur, i.sub, i.a))
